@@ -393,6 +393,50 @@ theorem c20_every_refused_mutation_logged_unapproved (env : Env ν) (st : Store 
   · rw [step_mutate_done hi e]; simpa [refuseMut] using getElem?_set_of_some (i := i) (a := refuseMut g og n v .user) hi
   · rw [step_mutate_raised hi e] at hret; cases hret
 
+/-- **However often a refused attempt is repeated, each one is logged and none takes effect.**  On a genome with
+    mutations disabled whose callback (if any) answers "refuse" to this change at every call number, `k` calls of
+    `mutate(n, v)` in a row — for EVERY `k`, there is no bound — all report `False`, leave the gene table, the expression
+    states and the gate settings literally as they were, and the log grows by exactly `k` unapproved entries
+    `n: current value → v`: nothing is de-duplicated, summarised, rotated out or cut off. -/
+theorem c20_k_refused_attempts_leave_k_log_entries (env : Env ν) (i n : Nat) (v : ν) (og : Gene ν) (k : Nat) :
+    ∀ (st : Store ν) (g : Genome ν), st.genomes[i]? = some g → findGene g.genes n = some og → g.allow = false →
+      (∀ c, g.cb = some c → ∀ j, env.adv c j n og.value v .user = .refuse) →
+      trace env st (List.replicate k (.mutate i n v)) = List.replicate k (.ret false) ∧
+      (run env st (List.replicate k (.mutate i n v))).genomes[i]? =
+        some { g with log := g.log ++ List.replicate k ⟨n, og.value, v, .user, false⟩ } := by
+  induction k with
+  | zero => intro st g hi _ _ _; simpa [run, trace] using hi
+  | succ k ih =>
+    intro st g hi hf hal href
+    have hstep : (step env st (.mutate i n v)).2 = .ret false ∧
+        (step env st (.mutate i n v)).1.genomes[i]? = some (refuseMut g og n v .user) := by
+      rcases mutate_cases env st.calls g n v .user with ⟨hn, -⟩ | ⟨og', hf', ⟨hal', -⟩ | ⟨-, -, e⟩ |
+        ⟨c, -, hcb, ⟨ha, -⟩ | ⟨-, e⟩ | ⟨ha, -⟩⟩⟩
+      · rw [hf] at hn; cases hn
+      all_goals (rw [hf] at hf'; cases hf')
+      · rw [hal] at hal'; cases hal'
+      · rw [step_mutate_done hi e]
+        exact ⟨rfl, by simpa using getElem?_set_of_some (i := i) (a := refuseMut g og n v .user) hi⟩
+      · rw [href c hcb st.calls] at ha; cases ha
+      · rw [step_mutate_done hi e]
+        exact ⟨rfl, by simpa using getElem?_set_of_some (i := i) (a := refuseMut g og n v .user) hi⟩
+      · rw [href c hcb st.calls] at ha; cases ha
+    obtain ⟨hret, hg1⟩ := hstep
+    obtain ⟨ht, hr⟩ := ih (step env st (.mutate i n v)).1 (refuseMut g og n v .user) hg1 hf hal href
+    refine ⟨?_, ?_⟩
+    · simp only [List.replicate_succ, trace, hret, ht]
+    · simp only [List.replicate_succ, run]
+      rw [hr]
+      simp [refuseMut, List.append_assoc]
+
+/-- non-vacuity: the hypotheses hold of a locked genome without a reviewer; 1001 attempts, 1001 entries -/
+example :
+    let g : Genome Nat := newGenome false none false [⟨0, 1, .structural, true, .normal⟩]
+    (run (gateEnv none) (⟨[g], 0, 0⟩ : Store Nat) (List.replicate 1001 (.mutate 0 0 7))).genomes[0]? =
+      some { g with log := g.log ++ List.replicate 1001 ⟨0, 1, 7, .user, false⟩ } :=
+  (c20_k_refused_attempts_leave_k_log_entries (gateEnv none) 0 0 7 ⟨0, 1, .structural, true, .normal⟩ 1001 _ _ rfl
+    (by decide) (by decide) (by intro c h; exact nomatch h)).2
+
 /-- A callback that raises leaves every genome exactly as it was (the exception propagates to the caller). -/
 theorem c20_raising_callback_changes_nothing (env : Env ν) (st : Store ν) (op : Op ν)
     (hr : (step env st op).2 = .raised) : (step env st op).1.genomes = st.genomes := by
